@@ -143,7 +143,7 @@ def make_wrapper(world, twins, contract, target, orig, is_static, needs_self):
                 st["whens"][id(r)] = bool(ctx.eval(r.when, env)) if r.when else True
                 for e in r.ensures:
                     if not e.startswith("ghost:"):
-                        st["olds"][e] = ctx.eval_olds(e, env)
+                        st["olds"][e] = ctx.eval_olds(e[7:] if e.startswith("assume:") else e, env)
             if selfobj is not None:
                 for f in frame_fields:
                     if hasattr(selfobj, f):
@@ -180,7 +180,7 @@ def make_wrapper(world, twins, contract, target, orig, is_static, needs_self):
                             for k, e in enumerate(r.ensures):
                                 if e.startswith("ghost:"):
                                     continue
-                                if not ctx.eval(e, env, st["olds"].get(e)):
+                                if not ctx.eval(e[7:] if e.startswith("assume:") else e, env, st["olds"].get(e)):
                                     lab = (r.labels[k] if k < len(r.labels) and r.labels[k] else f"ensures#{k}")
                                     REC.add(Violation("post-exc", short, f"{r.exc}:{lab}", e, call=_describe(env)))
             selfobj = st["self"]
